@@ -17,7 +17,8 @@ PROPS = ['PGA.Props.C17']
 GEN = []
 OBLIGATIONS = ['PGA.Net.' + t for t in [
     'C17_seeds_in', 'C17_closed', 'C17_only_reachable', 'C17_complete', 'C17_nodup', 'C17_is_closure',
-    'C17_terminates', 'C17_generates_closure', 'C17_fuel_irrelevant', 'C17_empty_error', 'C17_nonunary_error',
+    'C17_terminates', 'C17_generates_closure', 'C17_terminates_of_finite', 'C17_fuel_irrelevant', 'C17_fuel_exact',
+    'C17_inner_dedup_redundant', 'C17_empty_error', 'C17_nonunary_error',
     'C17_unrepaired_witness', 'C17_unrepaired_not_nodup', 'C17_repaired_witness']]
 RULE = ('case = (seed list of 1-2 small molecules/radicals given as SMILES or Mol, rule list of 1-4 rules drawn from a pool of '
         'bond-scission / dehydrogenation / H-shift / bond-order rules as reaction SMARTS, RDKit reaction objects, or RING rule '
@@ -41,7 +42,7 @@ TRUSTED = ['modelled, not verified: the work-list loop of GenerateRxnNet (pgradd
            'species equality is modelled as equality of a canonical key (assumption A-canon, re-validated on every run)']
 
 CAP = 220          # closure-size cap (species)
-ALARM = 20.0       # seconds per GenerateRxnNet call
+ALARM = 10.0       # seconds per GenerateRxnNet call
 
 SEEDS = ['C', 'CC', 'CCC', 'C=C', 'CO', 'CCO', 'C=O', '[CH3]', '[CH2]C', '[OH]', 'C[O]', '[CH2]', 'C#C', 'O', '[H][H]',
          'OO', 'CC=O', 'C=CC', 'C1CC1', 'COC', 'N', 'CN', '[CH2]O', '[CH]=C', 'C=C=C', 'OCO', '[H]', 'C-C', 'OC',
@@ -512,6 +513,9 @@ def run(ctx):
     for _ in range(ctx.n(500, 6000)):
         if ctx.time_left() < 120:
             ctx.count('stopped_for_time')
+            break
+        if len(ctx.violations) >= 20:
+            ctx.count('stopped_after_20_violations')
             break
         seeds, rules = random_case(rng, ring)
         check_case(ctx, seeds, rules, batch)
